@@ -292,6 +292,8 @@ def call_method(interp, obj, name, args, kwargs, lineno):
         if name == 'view':
             return obj
         if name == 'astype':
+            if _is_int_dtype(args[0] if args else kwargs.get('dtype')) and a.kind == 'real':
+                return Box(Arr(a.shape, lambda idx: A._trunc(a.at(idx)), 'int', tag=a.tag))
             return Box(a)
         raise AnalysisError(f"ndarray method {name}")
     if isinstance(obj, list):
@@ -419,6 +421,23 @@ def call_builtin(interp, name, args, kwargs, lineno, fr):
         if len(args) == 1:
             return Box(A.arange_arr(ZERO, R(args[0])))
         return Box(A.arange_arr(R(args[0]), R(args[1])))
+    if name in ('enumerate', 'zip'):
+        seqs = []
+        for x in (args[:1] if name == 'enumerate' else args):
+            if is_arraylike(x):
+                a = snap(x)
+                if a.ndim != 1 or not a.shape[0].is_const():
+                    raise AnalysisError(f"{name} over an array of symbolic length")
+                x = [a.at((Rat.const(i),)) for i in range(a.shape[0].as_int())]
+            if isinstance(x, dict):
+                x = list(x)
+            if not isinstance(x, (tuple, list)):
+                raise AnalysisError(f"{name} over {type(x).__name__}")
+            seqs.append(list(x))
+        if name == 'enumerate':
+            start = int(R(kwargs.get('start', args[1] if len(args) > 1 else ZERO)).const_value()) if (len(args) > 1 or kwargs) else 0
+            return [(Rat.const(start + i), v) for i, v in enumerate(seqs[0])]
+        return [tuple(t) for t in zip(*seqs)]
     if name == 'str':
         return AStr('<str>')
     if name == 'vars':
